@@ -126,7 +126,8 @@ def intended_check(intended, recs, world):
     for kind, a, b in sorted(intended):
         if kind in ("uses", "anc"):
             gids = [f"module~~{a}~~UsesGraph", f"program~~{a}~~UsesGraph"]
-            tails, heads = {f"module~{a}", f"program~{a}"}, {f"module~{b}", b}
+            tails = {f"module~{a}", f"program~{a}"}
+            heads = {f"module~{b}"} if re.fullmatch(r"m\d+|s\d+_\w+", b) else {b}
             dashed = kind == "uses"
         else:
             gids = [f"type~~{a}~~InheritsGraph"]
